@@ -41,7 +41,13 @@ TupleCases == {[h |-> s[1], w |-> s[2], blocks |-> <<tb[Len(tb)][1]>>, tb |-> tb
 \* "tile": as "head" with the chunk size equal to the full-resolution tile, so that the LARGEST chunk has the tile's size without being aligned)
 IrrCases == {[h |-> s[1], w |-> s[2], blocks |-> b, irr |-> ir] @@ Variants[k] @@ [vidx |-> 300 + k] :
                s \in {<<45, 70>>, <<100, 37>>, <<64, 64>>}, b \in {<<32, 16>>, <<16>>, <<32>>}, ir \in {"head", "tile"}, k \in {1, 2, 3, 6}}
-WriteCases == BigCases \cup TupleCases \cup IrrCases \cup {[h |-> s[1], w |-> s[2], blocks |-> b] @@ Variants[((s[1] + 3 * s[2] + Len(b) + b[1]) % Len(Variants)) + 1] @@ [vidx |-> k] : s \in Shapes, b \in BlockLists, k \in {0}}
+\* GDAL-style options naming the codec's effort / tolerance, in either letter case, with the compressions they go with (LERC with a second codec on top
+\* has both a tolerance and an effort; the tolerance defaults to lossless whatever effort is asked of the second codec)
+LvlCases == {[comp |-> o[1], lvlk |-> o[2], lvlv |-> o[3], h |-> s[1], w |-> s[2], blocks |-> <<32, 16>>, vidx |-> 400 + k] @@ Variants[k] :
+               s \in {<<45, 70>>, <<64, 64>>}, k \in {1, 3, 4},
+               o \in {<<"lerc_zstd", "ZSTD_LEVEL", 9>>, <<"LERC_ZSTD", "zstd_level", 3>>, <<"lerc_deflate", "ZLEVEL", 9>>, <<"lerc", "MAX_Z_ERROR", 0>>, <<"lerc_zstd", "none", 0>>,
+                       <<"zstd", "ZSTD_LEVEL", 9>>, <<"deflate", "zlevel", 9>>, <<"deflate", "level", 3>>}}
+WriteCases == BigCases \cup TupleCases \cup IrrCases \cup LvlCases \cup {[h |-> s[1], w |-> s[2], blocks |-> b] @@ Variants[((s[1] + 3 * s[2] + Len(b) + b[1]) % Len(Variants)) + 1] @@ [vidx |-> k] : s \in Shapes, b \in BlockLists, k \in {0}}
               \cup {[h |-> s[1], w |-> s[2], blocks |-> b] @@ Variants[k] @@ [vidx |-> k] : s \in {<<45, 70>>, <<1, 40>>, <<33, 17>>}, b \in {<<32, 16>>, <<16>>}, k \in 1..Len(Variants)}
 VARIABLE c
 Init == c \in {[k |-> b] : b \in BlockLists} \cup {[k |-> <<>>]}
